@@ -42,7 +42,8 @@ def required_cells(tier):
             "kind:rotdeph": 2, "via-import:file": 1, "via-import:simple": 1,
             "controls:stacked": 1, "transform:one-sided": 2,
             "history:tensor-replaced": 2, "feed:buffer": 3,
-            "feed:fortran": 3, "env:time-dependent": 3}
+            "feed:fortran": 3, "env:time-dependent": 3, "gauge": 10,
+            "gauge:bond-dimension-1": 3, "bond-dimension-1": 5}
 
 
 def cases(tier, seed):
@@ -95,13 +96,24 @@ def run_ancilla(case):
     for j in range(nenv):
         kind = kinds[(i + j) % len(kinds)]
         e = int(rng.integers(2, 4)) if (d == 2 and nenv < 3) else 2
+        if (i + j) % 7 == 3:
+            e = 1          # memoryless environment: every bond has dimension 1
+            cells.append("bond-dimension-1")
         caps = "compute" if (kind != "nontp" and (i + j) % 4 == 2) else \
             "explicit"
+        # the same process tensor in another gauge of its bonds (an
+        # invertible matrix per bond, a scalar on bonds of dimension 1)
+        gauge = gen.rng_for(case["seed"], "c03g", i, j) \
+            if (i + j) % 3 == 1 else None
+        if gauge is not None:
+            cells.append("gauge")
+            if e == 1:
+                cells.append("gauge:bond-dimension-1")
         if kind == "rotdeph":
             env, denv, tin, tout = ancilla.rotated_dephasing_env(rng, d, e)
             rank3, transform = True, (tin, tout)
             pt = build_pt(denv, nsteps, dt if (i + j) % 2 else None, True,
-                          transform, caps)
+                          transform, caps, gauge=gauge)
         else:
             env = ancilla.random_env(rng, d, e, kind)
             env.is_dephasing = (kind == "dephasing")
@@ -118,11 +130,12 @@ def run_ancilla(case):
             if feed != "copy":
                 cells.append("feed:" + feed)
             pt = build_pt(env, nsteps, dt if (i + j) % 2 else None, rank3,
-                          transform, caps, feed)
+                          transform, caps, feed, gauge=gauge)
         envs.append(env)
         pts.append(pt)
         desc.append(dict(kind=kind, e=e, rank3=rank3,
-                         transform=transform is not None, caps=caps))
+                         transform=transform is not None, caps=caps,
+                         gauge=gauge is not None))
         cells.append("kind:" + kind)
         if rank3:
             cells.append("rank3")
@@ -226,7 +239,7 @@ def run_ancilla(case):
     # replaced through set_mpo_tensor and the object is contracted again
     if nenv and via is None and not violations and i % 3 == 0 \
             and desc[0]["caps"] == "explicit" and not desc[0]["transform"] \
-            and desc[0]["kind"] in ("unitary", "channel", "dephasing"):
+            and not desc[0]["gauge"] and desc[0]["kind"] in ("unitary", "channel", "dephasing"):
         newenv = ancilla.random_env(rng, d, desc[0]["e"], desc[0]["kind"])
         ksteps = sorted(set(int(x) for x in rng.integers(0, nsteps, size=2)))
         envs[0].step_kraus = {k: newenv.kraus for k in ksteps}
@@ -260,20 +273,24 @@ def run_ancilla(case):
                                 "controls": cdesc, "err": err})}
 
 
-def build_pt(env, nsteps, dt, rank3, transform, caps, feed="copy"):
+def build_pt(env, nsteps, dt, rank3, transform, caps, feed="copy",
+             gauge=None):
     """Process tensor of an ancilla environment; for computed caps the last
     tensor is closed with the environment trace (future bond dimension 1), as
     SimpleProcessTensor.compute_caps requires."""
     import oqupy
     if caps == "explicit":
         return ancilla.build_process_tensor(env, nsteps, dt=dt, rank3=rank3,
-                                            transform=transform, feed=feed)
+                                            transform=transform, feed=feed,
+                                            gauge=gauge)
     tens = ancilla.rank3_tensors(env, nsteps) if rank3 \
         else env.tensors(nsteps)
     tr = np.eye(env.e).reshape(-1).astype(complex)
     last = np.tensordot(tens[-1], tr, axes=([1], [0]))   # drop future bond
     last = np.expand_dims(last, 1)
     tens = tens[:-1] + [last]
+    if gauge is not None:
+        tens, _ = ancilla.apply_gauge(gauge, tens, None)
     kw = {}
     if transform is not None:
         tin, tout = transform
